@@ -530,3 +530,73 @@ Definition dirty_handoff (l : list ev) : bool :=
 
 Definition count_stmts (l : list ev) : nat :=
   List.length (filter (fun e => match e with EvStmt _ _ _ _ _ _ _ => true | _ => false end) l).
+
+(** ** Compact printing of a log for the correspondence: every distinct byte string is printed
+    once (table), events refer to it by position. *)
+Fixpoint find_idx (v : bytes) (tbl : list bytes) (i : nat) : option nat :=
+  match tbl with
+  | [] => None
+  | x :: r => if beq v x then Some i else find_idx v r (S i)
+  end.
+
+Definition intern (tbl : list bytes) (v : bytes) : list bytes * nat :=
+  match find_idx v tbl 0 with
+  | Some i => (tbl, i)
+  | None => (tbl ++ [v], List.length tbl)
+  end.
+
+Fixpoint intern_list (tbl : list bytes) (l : list bytes) : list bytes * list nat :=
+  match l with
+  | [] => (tbl, [])
+  | v :: r => let '(t1, i) := intern tbl v in let '(t2, is) := intern_list t1 r in (t2, i :: is)
+  end.
+
+Fixpoint intern_optl (tbl : list bytes) (l : list (option bytes)) : list bytes * list (option nat) :=
+  match l with
+  | [] => (tbl, [])
+  | None :: r => let '(t2, is) := intern_optl tbl r in (t2, None :: is)
+  | Some v :: r => let '(t1, i) := intern tbl v in let '(t2, is) := intern_optl t1 r in (t2, Some i :: is)
+  end.
+
+Fixpoint intern_pairs (tbl : list bytes) (l : list (bytes * bytes)) : list bytes * list (nat * nat) :=
+  match l with
+  | [] => (tbl, [])
+  | (k, v) :: r =>
+    let '(t1, i) := intern tbl k in let '(t2, j) := intern t1 v in
+    let '(t3, is) := intern_pairs t2 r in (t3, (i, j) :: is)
+  end.
+
+Inductive cev :=
+| CRefused (c : nat)
+| CTold (c : nat) (fr : list (nat * nat))
+| CSync (c s : nat) (d : list (nat * nat))
+| CStmt (c s : nat) (checkout : bool) (dirty : list nat) (backend_vals : list (option nat))
+        (backend_eq_client client_eq_est : bool)
+| CClean (s : nat) (rollback reset_all : bool)
+| CReplaced (s : nat).
+
+Fixpoint compact (tbl : list bytes) (l : list ev) : list bytes * list cev :=
+  match l with
+  | [] => (tbl, [])
+  | e :: r =>
+    match e with
+    | EvRefused c => let '(t, cs) := compact tbl r in (t, CRefused c :: cs)
+    | EvTold c fr => let '(t1, f) := intern_pairs tbl fr in let '(t, cs) := compact t1 r in (t, CTold c f :: cs)
+    | EvSync c s d => let '(t1, f) := intern_pairs tbl d in let '(t, cs) := compact t1 r in (t, CSync c s f :: cs)
+    | EvStmt c s co dk bv cv evv =>
+      let '(t1, d) := intern_list tbl dk in let '(t2, b) := intern_optl t1 bv in
+      let '(t, cs) := compact t2 r in (t, CStmt c s co d b (vals_eqb bv cv) (vals_eqb cv evv) :: cs)
+    | EvClean s rb ra => let '(t, cs) := compact tbl r in (t, CClean s rb ra :: cs)
+    | EvReplaced s => let '(t, cs) := compact tbl r in (t, CReplaced s :: cs)
+    end
+  end.
+
+Definition run_mock_c (ops : list op) : list bytes * list cev := compact [] (run_mock ops).
+
+(** byte strings written as lower-case hex text (long list literals are slow to parse) *)
+Definition hexd (a : ascii) : N := let n := N_of_ascii a in if n <? 58 then n - 48 else n - 87.
+Fixpoint unhex (s : string) : bytes :=
+  match s with
+  | String a (String b r) => (hexd a * 16 + hexd b) :: unhex r
+  | _ => []
+  end.
